@@ -49,6 +49,9 @@ def replay_case(arg):
             mo[int(rng.integers(n))] = 0.0
         elif rec['outsign'] == 'someneg':
             mo[int(rng.integers(n))] = -round(float(rng.uniform(0.2, 1.5)), 3)
+        elif rec['outsign'] == 'smallneg':
+            # negative, with sigma_base + sigma_rel * output = sigma_base / 2 > 0 for the constant-and-multiplicative model
+            mo[int(rng.integers(n))] = -round(0.5 * par[0] / par[1], 4) if (kind == 'C' and rec['cls'] != '-inf') else -0.2
         obs = np.round(rng.uniform(0.5, 3.0, size=n), 3) * (1e3 if mag.endswith('large') else 1e-3 if mag.endswith('small') else 1.0)
         S = np.round(rng.uniform(-1, 1, size=(n, p)), 3)
         par_in, mo_in, obs_in, S_in = np.array(par), mo.copy(), obs.copy(), S.copy()
